@@ -81,6 +81,11 @@ package jtypes
 // The Callable interface as its callers see it: Name and ParamCount read; Call returns a value or an error (an
 // error comes with the zero Value; a value is Interface()-able) and may write evaluation-owned memory.
 // (Assumed at interface calls; of the implementations only lambdaCallable.Call is verified against it so far.)
+// Optional* parameters: IsSet reads the flag
+//@ func (*isSet).IsSet
+//@   requires opt != nil
+//@   ensures result == deref(opt)
+//@   assigns nothing
 //@ nonnil payload jtypes.Callable
 //@ func iface:Callable.Name
 //@   assigns nothing
